@@ -109,15 +109,17 @@ func sameRows(a, b []row) bool {
 // VerifOrder: the result does not depend on the directory listing order or on map iteration
 // order, and is sorted. Package names/versions carry symbolic bytes so that ties on some keys occur.
 func VerifOrder() {
+	// one package's name and version extend another's by one arbitrary printable byte, so that
+	// prefix relations and every relative order of the extra byte to separators occur
 	nb := verifrt.Byte("name")
 	vb := verifrt.Byte("version")
-	verifrt.Assume(verifrt.And(nb >= 'a', nb <= 'c'))
-	verifrt.Assume(verifrt.And(vb >= '1', vb <= '3'))
+	verifrt.Assume(verifrt.And(nb >= 0x20, nb < 0x7f))
+	verifrt.Assume(verifrt.And(vb >= 0x20, vb < 0x7f))
 	c := content{
-		"a.pkg":   {{"b", "2"}},
-		"d/b.pkg": {{string([]byte{nb}), string([]byte{vb})}},
-		"d/c.pkg": {{"b", "2"}, {"a", "9"}},
-		"z.pkg":   {{"b", string([]byte{vb})}},
+		"a.pkg":   {{"b", "1.0"}},
+		"d/b.pkg": {{"b" + string([]byte{nb}), "1.0" + string([]byte{vb})}},
+		"d/c.pkg": {{"b", "1.0"}, {"a", "9"}},
+		"z.pkg":   {{"b", "1.0" + string([]byte{vb})}, {"b0", "1.0"}},
 	}
 	exs := func() []filesystem.Extractor {
 		return []filesystem.Extractor{extractorFor("y", c), extractorFor("x", c)}
